@@ -144,6 +144,7 @@ def check_normal_exit(ex: Exec, ct: Contract, fi: FuncInfo, result: SV):
     if ct.ret is not None and result.py is None:
         result = ex.coerce(result, ct.ret)
     final_locals = ctx.locals
+    ex.final_locals = final_locals
     ctx.locals = _with_entry_params(ex, {"result": result})
     ex.spec_mode = True
     try:
